@@ -296,3 +296,21 @@ func H_C04_parsefile_outer_bytes() {
 	verifAssert((fo == nil) == (o == nil) && (ferr == nil) == (err == nil), "ParseFile returns what ParseObject returns for the file's bytes")
 	verifReach("end")
 }
+
+// valid documents with repeated keys of every kind combination: parsed without panic, exactly one of
+// (container, error)
+func H_C04_total_duplicate_keys() {
+	vals := []string{`1`, `"s"`, `null`, `{}`, `{"q":2}`, `[]`, `[3]`, `tru`}
+	a := nondetIntRange(0, len(vals)-1)
+	b := nondetIntRange(0, len(vals)-1)
+	k := hAscii(1)
+	verifAssume(verifAnd(k[0] != '"', k[0] != '\\'))
+	text := `{"` + k + `":` + vals[a] + `,"` + k + `":` + vals[b] + `}`
+	if nondetIntRange(0, 1) == 1 {
+		text = `[` + text + `,` + text + `]`
+	}
+	c, err, p := hParseAny(text[0] == '[', text)
+	verifAssert(!p, "parsing never panics")
+	verifAssert((c == nil) != (err == nil), "parsing returns either a container with a nil error or no container with an error")
+	verifReach("end")
+}
